@@ -390,13 +390,14 @@ PROPS["C17"] = dict(
                                    "Study.get_trials returns the trials sorted by number (C01)",
                                    "finished trials are immutable between calls (C02/C20): the ghost set `accounted` of the "
                                    "previous call is still a set of finished trials with unchanged distributions"],
-    not_covered=["IntersectionSearchSpace.calculate wrapper (study-id check, sorting, deepcopy)",
-                 "group decomposition: 'every finished trial's parameter set is a union of groups' is proved only in the form "
+    not_covered=["group decomposition: 'every finished trial's parameter set is a union of groups' is proved only in the form "
                  "cover + partition (groups non-empty, pairwise disjoint, their union = all parameters of the trials of "
                  "interest); the refinement clause (each new group lies inside one old group and on one side of the new key "
                  "set) is not stated yet"],
 )
 PROPS["C17"]["claim"] += (
+    " IntersectionSearchSpace.calculate (the stateful wrapper) is proved to return a fresh dict that is the from-scratch "
+    "intersection over the study's current trials and to re-establish the ghost invariant on the object (other-study -> ValueError)."
     " Group decomposition: _SearchSpaceGroup.add_distributions keeps the groups a partition (non-empty, pairwise disjoint) whose "
     "union is the old union plus the new trial's parameter names (loop invariant over the old groups; set algebra, dict "
     "comprehensions over sets and filter() modelled), and _GroupDecomposedSearchSpace.calculate returns a fresh deep copy whose "
